@@ -1,8 +1,8 @@
 SPECIFICATION SpecB
 CONSTANTS
-  MaxOps = 5
-  MaxSize = 2
-  Lengths = {0, 1, 3}
+  MaxOps = 6
+  MaxSize = 1
+  Lengths = {0, 1, 2}
   MutB = ""
 INVARIANT InvHdrOnceFirst
 INVARIANT InvChunkedDecodes
